@@ -75,6 +75,9 @@ class Judge:
         self.muted = False
         self.key_tree = {}
         self.listings = {}
+        # some name-mode chain of this history uses config names containing a dot (zone of known finding F11)
+        self.dotted_namemode = any(o_['op'] in ('build', 'migrate') and not o_.get('pmode', o_['op'] != 'migrate') and '.' in (o_.get('render') or {}).get('name_suffix', '')
+                                   for p_ in scn['procs'] for o_ in p_['ops'])
         self.migration_targets = {p_op['target'] for p in scn['procs'] for p_op in p['ops'] if p_op['op'] == 'migrate'}
 
     # ------------------------------------------------------------------ helpers
@@ -353,26 +356,31 @@ class Judge:
             return
         self.stats['records_checked'] += 1
         rprop = 'C12' if loc.tree else 'C18'
+        # known finding F11: for directory-type results the side files are named after Path(name).stem, which drops the part
+        # of a config name after its last dot: in name mode 'model' and 'model.v2' share run info and log
+        zone = None
+        if not chain['pmode'] and V.EXT.get(it.kind) is None and self.dotted_namemode:
+            zone = 'dotted_config_name_directory_side_files'
         if kind == 'log':
             if not lr.get('log_valid', True):
                 return
             exp = lr['log']
             if lr.get('quiet'):
                 if got not in ([], None) and got != []:
-                    self.disc(rprop, 'I-records', op['i'], f'{name}: log holds messages although the run that produced the result logged nothing', got=(got or [])[:8], run=lr['run'])
+                    self.disc(rprop, 'I-records', op['i'], f'{name}: log holds messages although the run that produced the result logged nothing', got=(got or [])[:8], run=lr['run'], zone=zone)
                 return
             if got is None:
-                self.disc(rprop, 'I-records', op['i'], f'{name}: no log beside the result', expected=exp)
+                self.disc(rprop, 'I-records', op['i'], f'{name}: no log beside the result', expected=exp, zone=zone)
                 return
             # first line "<task> - run started with params: ...", last "<task> - run ended"; in between exactly this run's messages
             body = got[1:-1] if len(got) >= 2 else None
             ok = (body == exp and got[0].startswith(f'{lr["task"]} - run started with params:') and got[-1] == f'{lr["task"]} - run ended')
             if not ok:
-                self.disc('C18', 'I-records', op['i'], f'{name}: log does not hold exactly the messages of the run that produced the result',
-                          got=got[:12], expected_body=exp, run=lr['run'])
+                self.disc(rprop, 'I-records', op['i'], f'{name}: log does not hold exactly the messages of the run that produced the result',
+                          got=got[:12], expected_body=exp, run=lr['run'], zone=zone)
         else:
             if not isinstance(got, dict):
-                self.disc(rprop, 'I-records', op['i'], f'{name}: no run info beside the result', got=got)
+                self.disc(rprop, 'I-records', op['i'], f'{name}: no run info beside the result', got=got, zone=zone)
                 return
             problems = []
             if (got.get('task') or {}).get('name') != it.slug:
@@ -411,7 +419,7 @@ class Judge:
                 if ts is None or not (lr['t_op'] < ts <= lr['t_body']):
                     problems.append(['started', got.get('started'), [lr['t_op'], lr['t_body']]])
             if problems:
-                self.disc('C18', 'I-records', op['i'], f'{name}: run info does not describe the run that produced the result', problems=problems[:5], run=lr['run'])
+                self.disc(rprop, 'I-records', op['i'], f'{name}: run info does not describe the run that produced the result', problems=problems[:5], run=lr['run'], zone=zone)
 
     # ------------------------------------------------------------------ forcing
     def _apply_force(self, chain, names, delete, op, o):
